@@ -539,11 +539,19 @@ def _registry(b, root=None):
     return tuple(sorted(r.strategy_names)), tuple(sorted(r.dataset_names))
 
 
+_PCACHE = {}
+
+
 def _fitted_params(b, root=None):
     from joblib import load
 
-    st = load(io.BytesIO(b))
-    return st.name, np.array(st.estimator.means_)
+    k = _bd(b)
+    if k not in _PCACHE:
+        if len(_PCACHE) > 20000:
+            _PCACHE.clear()
+        st = load(io.BytesIO(b))
+        _PCACHE[k] = (st.name, np.array(st.estimator.means_))
+    return _PCACHE[k]
 
 
 def _canon(ctx, snap):
@@ -878,7 +886,8 @@ def _step_hdd(ctx, J, before, hist, O, crash, deep):
         if "results.pickle" not in after:
             J.v("%s:no-master-file" % sit, "run returned normally without a results.pickle",
                 h2, observed=sorted(after))
-        elif deep:
+        elif deep or (_canon(ctx, after), sit, pot, save) not in ctx.seen_keys:
+            ctx.seen_keys.add((_canon(ctx, after), sit, pot, save))
             # 1 the live object ("read back from memory"), 2 a fresh one from disk
             _check_load(ctx, J, h2, sit, live, after, "live")
             fresh = call(lambda: __import__("joblib").load(
@@ -1036,7 +1045,7 @@ def _search(ctx, J, L, B):
         if hdd:
             _restore(ctx.tmp, node["store"])
             after, counts, _ = _step_hdd(ctx, J, node["store"], node["hist"], O, crash,
-                                         deep=True)
+                                         deep=False)
             sc = _canon(ctx, after)
         else:
             after, counts, _ = _step_ram(ctx, J, copy.deepcopy(node["store"]), node["hist"], O,
